@@ -31,7 +31,7 @@ theorem live_setQ {s : Streams} {q : QName} {l : List Nat} {k : Nat} : Live (s.s
   unfold Live; rw [setQ_store]
 
 theorem setQueued_inert (x : Stream) (q : QName) (v : Bool) (h : q ≠ .pendingCapacity) : Inert x (x.setQueued q v) := by
-  cases q <;> first | exact ⟨rfl, rfl, id⟩ | exact absurd rfl h
+  cases q <;> first | exact ⟨rfl, rfl, rfl, rfl, fun h => h⟩ | exact absurd rfl h
 
 theorem avOK_of_sameFlow {s s' : Streams}
     (h : ∀ y ∈ s'.store.slab, ∃ x ∈ s.store.slab, y.sendFlow = x.sendFlow) (ha : AvOK s) : AvOK s' := by
@@ -55,8 +55,47 @@ theorem avOK_setQ {s : Streams} (q : QName) (l : List Nat) (ha : AvOK s) : AvOK 
 
 -- ===================================================================== queues
 
+theorem modStream_ids (s : Streams) (k : Nat) (f : Stream → Stream) : (s.modStream k f).store.ids = s.store.ids := by
+  unfold Streams.modStream; split
+  · rfl
+  · rw [panic_store]
+
+theorem setQueued_id (x : Stream) (q : QName) (v : Bool) : (x.setQueued q v).id = x.id := by cases q <;> rfl
+theorem setQueued_ref (x : Stream) (q : QName) (v : Bool) : (x.setQueued q v).refCount = x.refCount := by cases q <;> rfl
+theorem setQueued_key (x : Stream) (q : QName) (v : Bool) : (x.setQueued q v).key = x.key := by cases q <;> rfl
+
+theorem qPush_spr {α : Type} {P : Stream → α} (s : Streams) (q : QName) (k : Nat) (h : ∀ x v, P (x.setQueued q v) = P x) :
+    SPr P s (s.qPush q k).1 := by
+  unfold Streams.qPush; split
+  · exact .refl _ _
+  · exact (SPr.modStream s k _ (fun x => setQueued_key x q true) (fun x => h x true)).trans (.of_store (setQ_store _ _ _))
+theorem qPushFront_spr {α : Type} {P : Stream → α} (s : Streams) (q : QName) (k : Nat) (h : ∀ x v, P (x.setQueued q v) = P x) :
+    SPr P s (s.qPushFront q k).1 := by
+  unfold Streams.qPushFront; split
+  · exact .refl _ _
+  · exact (SPr.modStream s k _ (fun x => setQueued_key x q true) (fun x => h x true)).trans (.of_store (setQ_store _ _ _))
+theorem qPop_spr {α : Type} {P : Stream → α} (s : Streams) (q : QName) (h : ∀ x v, P (x.setQueued q v) = P x) :
+    SPr P s (s.qPop q).1 := by
+  unfold Streams.qPop; split
+  · exact .refl _ _
+  · exact (SPr.of_store (setQ_store _ _ _)).trans (SPr.modStream _ _ _ (fun x => setQueued_key x q false) (fun x => h x false))
+
+theorem qPush_ids (s : Streams) (q : QName) (k : Nat) : (s.qPush q k).1.store.ids = s.store.ids := by
+  unfold Streams.qPush; split
+  · rfl
+  · dsimp only; rw [setQ_store, modStream_ids]
+theorem qPushFront_ids (s : Streams) (q : QName) (k : Nat) : (s.qPushFront q k).1.store.ids = s.store.ids := by
+  unfold Streams.qPushFront; split
+  · rfl
+  · dsimp only; rw [setQ_store, modStream_ids]
+theorem qPop_ids (s : Streams) (q : QName) : (s.qPop q).1.store.ids = s.store.ids := by
+  unfold Streams.qPop; split
+  · rfl
+  · dsimp only; rw [modStream_ids, setQ_store]
+
 theorem qPush_lt (s : Streams) (q : QName) (k : Nat) : LT [k] s (s.qPush q k).1 := by
-  refine ⟨SameKeys.qPush _ _ _, ?_, ?_⟩
+  refine ⟨SameKeys.qPush _ _ _, qPush_ids _ _ _, qPush_spr _ _ _ (fun x v => setQueued_id x q v),
+    qPush_spr _ _ _ (fun x v => setQueued_ref x q v), ?_, ?_⟩
   · unfold Streams.qPush; split
     · exact ErrSame.refl _
     · dsimp only; unfold ErrSame; rw [setQ_counts', modStream_counts]; exact ⟨rfl, rfl⟩
@@ -75,7 +114,8 @@ theorem qPush_lt (s : Streams) (q : QName) (k : Nat) : LT [k] s (s.qPush q k).1 
       · exact avOK_setQ _ _ (avOK_modStream_flow _ _ (fun x => setQueued_flow x q true) hq.av)
 
 theorem qPushFront_lt (s : Streams) (q : QName) (k : Nat) : LT [k] s (s.qPushFront q k).1 := by
-  refine ⟨SameKeys.qPushFront _ _ _, ?_, ?_⟩
+  refine ⟨SameKeys.qPushFront _ _ _, qPushFront_ids _ _ _, qPushFront_spr _ _ _ (fun x v => setQueued_id x q v),
+    qPushFront_spr _ _ _ (fun x v => setQueued_ref x q v), ?_, ?_⟩
   · unfold Streams.qPushFront; split
     · exact ErrSame.refl _
     · dsimp only; unfold ErrSame; rw [setQ_counts', modStream_counts]; exact ⟨rfl, rfl⟩
@@ -106,7 +146,8 @@ theorem qPopCap_live {s : Streams} (hq : NPQ s) {s' : Streams} {id : Nat}
     exact (SameKeys.modStream _ _ _).live.mpr (live_setQ.mpr ⟨x, hx⟩)
 
 theorem qPopCap_lt (s : Streams) : LT [] s (s.qPop .pendingCapacity).1 := by
-  refine ⟨SameKeys.qPop _ _, ?_, ?_⟩
+  refine ⟨SameKeys.qPop _ _, qPop_ids _ _, qPop_spr _ _ (fun x v => setQueued_id x _ v),
+    qPop_spr _ _ (fun x v => setQueued_ref x _ v), ?_, ?_⟩
   · unfold Streams.qPop; split
     · exact ErrSame.refl _
     · dsimp only; unfold ErrSame; rw [modStream_counts, setQ_counts']; exact ⟨rfl, rfl⟩
@@ -125,7 +166,7 @@ theorem qPopCap_lt (s : Streams) : LT [] s (s.qPop .pendingCapacity).1 := by
 
 -- ===================================================================== `Inert` for the stream methods
 
-macro "inert_fields" : tactic => `(tactic| with_reducible exact ⟨rfl, rfl, id⟩)
+macro "inert_fields" : tactic => `(tactic| with_reducible exact ⟨rfl, rfl, rfl, rfl, fun h => h⟩)
 
 theorem notifySend_inert (x : Stream) : Inert x x.notifySend.1 := by
   unfold Stream.notifySend
@@ -174,7 +215,7 @@ theorem assignCapacity_le (f : FlowControl) (n : Nat) (h : f.available.val ≤ 2
 
 theorem setSendFlow_inert (x : Stream) (fl : FlowControl)
     (h : x.sendFlow.available.val ≤ 2147483647 → fl.available.val ≤ 2147483647) : Inert x { x with sendFlow := fl } :=
-  ⟨rfl, rfl, h⟩
+  ⟨rfl, rfl, rfl, rfl, h⟩
 
 theorem assignCapacity_inert (x : Stream) (a b : Nat) : Inert x (x.assignCapacity a b).1 := by
   unfold Stream.assignCapacity; simp only []; split
@@ -184,7 +225,7 @@ theorem assignCapacity_inert (x : Stream) (a b : Nat) : Inert x (x.assignCapacit
 
 /-- proves `Inert x (… x …)` -/
 macro "inert_tac" : tactic => `(tactic| with_reducible first
-  | exact ⟨rfl, rfl, id⟩
+  | exact ⟨rfl, rfl, rfl, rfl, fun h => h⟩
   | exact notifySend_inert _ | exact notifyRecv_inert _ | exact notifyPush_inert _ | exact notifyCapacity_inert _
   | exact assignCapacity_inert _ _ _ | exact waitSend_inert _ _ | exact waitOpen_inert _ _
   | exact setReset_inert _ _ _
@@ -238,8 +279,8 @@ elab "lt_head" : tactic => withMainContext do
   | some n =>
     if n == ``Streams.mk then
       evalTactic (← `(tactic| first
-        | with_reducible refine LT.trans ?_ (setMisc_lt _ _ _ _ _ _ rfl) ?_
-        | with_reducible refine LT.trans ?_ (setCounts_lt _ _ ?_) ?_))
+        | with_reducible refine LT.trans (ks' := []) ?_ (setMisc_lt _ _ _ _ _ _ rfl) (fun _ h => absurd h List.not_mem_nil)
+        | with_reducible refine LT.trans (ks' := []) ?_ (setCounts_lt _ _ ?_) (fun _ h => absurd h List.not_mem_nil)))
     else
     let last := match n with
       | .str _ s => s
